@@ -108,6 +108,10 @@ func Run(c *hx.Ctx) {
 			h2upCases(c)
 		case "hpackx":
 			hpackxCases(c)
+		case "disp":
+			dispCases(c)
+		case "pool":
+			poolCases(c)
 		}
 		return
 	}
@@ -203,6 +207,10 @@ func Run(c *hx.Ctx) {
 		binary.BigEndian.PutUint16(nb[f.Fields[1].Off:], uint16(len(blk)))
 		dec(f.Proto, nb, "bolt-bad-block")
 	}
+	// the decode loop of the real Dispatch under a Decode-call counter and a watchdog
+	dispCases(c)
+	// a panicking task through the real worker pool in every pool state, each probe in a child process
+	poolCases(c)
 	// containment: an in-process MOSN keeps answering a probe while other connections send malformed streams
 	containRun(c)
 	// HTTP/2 server-side frame extraction (incl. payload parsers and HPACK) on malformed frames
